@@ -74,11 +74,58 @@ def run_tasks(tasks: list[Task], jobs: int = 0) -> list[OR]:
             _, res, _ = _run_task(i)
             out.extend(res)
         return out
+    # One forked process per task (at most `jobs` at a time), each with its own pipe and deadline: a worker that dies (a solver crash, the OOM
+    # killer) or never returns becomes a CHECKER-FAULT for that task instead of hanging the whole check, as multiprocessing.Pool would.
     ctx = multiprocessing.get_context("fork")
-    with ctx.Pool(min(jobs, len(tasks))) as pool:
-        results = pool.map(_run_task, range(len(tasks)), chunksize=1)
-    for _, res, _ in sorted(results, key=lambda x: x[0]):
-        out.extend(res)
+    deadline_s = int(os.environ.get("VERIF_TASK_TIMEOUT", "1500"))
+    results, running, todo, retried = {}, {}, list(range(len(tasks))), set()
+
+    def child(i, conn):
+        try:
+            conn.send(_run_task(i))
+        except BaseException as e:      # noqa: the parent must always hear back
+            conn.send((i, [OR(id=f"{tasks[i].id}.task", status=ERROR, kind="G", target=tasks[i].target, role="guard", detail=f"task raised {type(e).__name__}: {e}")], 0.0))
+        finally:
+            conn.close()
+
+    def fault(i, why):
+        return (i, [OR(id=f"{tasks[i].id}.task", status=ERROR, kind="G", target=tasks[i].target, role="guard", detail=why)], 0.0)
+    import time as _time
+    from multiprocessing.connection import wait as _wait
+    while todo or running:
+        while todo and len(running) < jobs:
+            i = todo.pop(0)
+            parent_conn, child_conn = ctx.Pipe(duplex=False)
+            p = ctx.Process(target=child, args=(i, child_conn))      # not daemonic: a task may fork a verifier of its own
+            p.start()
+            child_conn.close()
+            running[i] = (p, parent_conn, _time.time())
+        ready = _wait([c for _, c, _ in running.values()], timeout=1.0)
+        for i, (p, conn, t0) in list(running.items()):
+            if conn in ready:
+                try:
+                    results[i] = conn.recv()
+                except (EOFError, OSError):
+                    p.join(timeout=5)
+                    if i not in retried:
+                        # a worker that died without an answer (killed, crashed in native code): one fresh attempt before it counts as a checker fault
+                        retried.add(i)
+                        todo.append(i)
+                        conn.close()
+                        del running[i]
+                        continue
+                    results[i] = fault(i, f"the worker process ended without a result, twice (exit code {p.exitcode})")
+                conn.close()
+                p.join(timeout=5)
+                del running[i]
+            elif _time.time() - t0 > deadline_s:
+                p.kill()
+                p.join(timeout=5)
+                results[i] = fault(i, f"no result within {deadline_s} s (worker killed)")
+                conn.close()
+                del running[i]
+    for i in sorted(results):
+        out.extend(results[i][1])
     return out
 
 
